@@ -77,9 +77,6 @@ def _run_state_ops(ops, oid_is_path):
                         continue
                 else:
                     prior = None
-                    cur = st.lookup_oid(side, oid)
-                    if cur is not None and TYPE_OF[oid] == "d" and path and cur[side].path and path != cur[side].path and _under(path, cur[side].path):
-                        continue
                 typ = TYPE_OF[oid]
                 if typ == "d":
                     h = None
@@ -93,7 +90,7 @@ def _run_state_ops(ops, oid_is_path):
                 side = op[2] % 2
                 if k == "setpath":
                     cur = e[side].path
-                    if oid_is_path or e[side].oid is None or (cur and op[3] != cur and _under(op[3], cur)):
+                    if oid_is_path or e[side].oid is None:
                         continue
                     e[side].path = op[3]
                 elif k == "setoid":
